@@ -56,6 +56,9 @@ def gen_box(rng, n, kind):
             a, b = float("-inf"), rng.uniform(-1, 2)
         elif kind == "infinite":
             a, b = float("-inf"), float("inf")
+        elif kind == "decimal":                 # bounds as a user types them (-0.1, 0.3): not sums of representable parts
+            a = round(rng.uniform(-4, 3), 1)
+            b = round(a + round(rng.uniform(0.2, 5), 1), 1)
         elif kind == "tight":
             a = rng.uniform(-1, 1)
             b = a + rng.choice([1e-9, 1e-6, 1e-3])
